@@ -7,12 +7,12 @@ CONSTANTS Comp = "hub_pro"
   Hosts <- H3
   InitAt <- At2_3
   MovePorts <- Mv2s
-  Dsts <- D_H3UB
-  Shapes <- Sh_al
+  Dsts <- D_1UB
+  Shapes <- Sh_a
   NBuf = 0
   Gaps <- G_none
   Strict = TRUE
-  D = 3
+  D = 2
 INIT Init
 NEXT Next
 VIEW viewE
